@@ -20,19 +20,27 @@
 /* VERIF-UNIT
 {
  "name": "extent_open2_root",
- "props": ["C06", "C14"],
+ "props": [
+  "C06",
+  "C14"
+ ],
  "level": "U/k",
- "tier": "wip",
+ "tier": "quick",
  "harness": "h_extent_open2",
- "replace": ["ext2fs_get_memzero"],
+ "replace": [
+  "ext2fs_get_memzero"
+ ],
  "unwind": 17,
  "unwind_reason": "the only loop reached is `for (i = 0; i < EXT2_N_BLOCKS; i++)` (15 = number of i_block words, a format constant); ext2fs_extent_free's loop runs 0 times on the error paths (max_paths still 0); unwinding assertions on",
- "functions": ["lib/ext2fs/extent.c:ext2fs_extent_open2", "lib/ext2fs/extent.c:ext2fs_extent_open"],
+ "functions": [
+  "lib/ext2fs/extent.c:ext2fs_extent_open2",
+  "lib/ext2fs/extent.c:ext2fs_extent_open"
+ ],
  "assumes": [
-   "inode content (128 bytes, incl. i_block) arbitrary; passed by the caller or delivered by ext2fs_read_inode (stub: arbitrary failure code, or leaves the arbitrary buffer as the inode read)",
-   "fs->super->s_log_block_size is 0 or 2 and fs->blocksize the matching 1024 / 4096 (ext2fs_open2 validated the superblock; end_blk is computed with a shift by it)",
-   "ext2fs_get_memzero (inline allocator of ext2fs.h) replaced by a contract: succeeds and hands out a fresh object of the requested size whose byte at the ghost offset is 0 (allocation failure not modelled -- see side observation in the file comment); ext2fs_get_mem / free are the CBMC library models (never fail)",
-   "no frame enforcement; statements are harness CHECKs plus CBMC's built-in memory-safety checks on the real function"
+  "inode content (128 bytes, incl. i_block) arbitrary; passed by the caller or delivered by ext2fs_read_inode (stub: arbitrary failure code, or leaves the arbitrary buffer as the inode read)",
+  "fs->super->s_log_block_size is 0 or 2 and fs->blocksize the matching 1024 / 4096 (ext2fs_open2 validated the superblock; end_blk is computed with a shift by it)",
+  "ext2fs_get_memzero (inline allocator of ext2fs.h) replaced by a contract: succeeds and hands out a fresh object of the requested size whose byte at the ghost offset is 0 (allocation failure not modelled -- see side observation in the file comment); ext2fs_get_mem / free are the CBMC library models (never fail)",
+  "no frame enforcement; statements are harness CHECKs plus CBMC's built-in memory-safety checks on the real function"
  ],
  "native": false
 }
